@@ -43,15 +43,15 @@ class Interpreter:
         return self.interpret(contents, os.path.basename(filename))
 
     def interpret(self, script, filename, environment=None):
-        savedParent = None
+        attached = None
         if environment is None:
             env = self.environment
         else:
             environment_ = environment
             while environment_ and environment_.parent:
                 environment_ = environment_.parent
-            if environment_:
-                savedParent = environment_.parent
+            if environment_ and environment_ is not self.base_environment:
+                attached = environment_
                 environment_.withParent(self.environment)
             env = environment
         try:
@@ -72,9 +72,5 @@ class Interpreter:
                 )
             return result
         finally:
-            if savedParent:
-                environment_ = environment
-                while environment_ and environment_.parent:
-                    environment_ = environment_.parent
-                if environment_:
-                    environment_.withParent(savedParent)
+            if attached:
+                attached.withParent(None)
